@@ -147,3 +147,57 @@ Theorem C07_chain_table_is_parent_table :
   forall f, map (fun e : Z * list Z => (fst e, hd (-1) (snd e))) (anc_table f) = parent_table f.
 Proof. exact anc_table_parents. Qed.
 Print Assumptions C07_chain_table_is_parent_table.
+
+(* Absorption (the theorem behind the harness check "criteria no stricter than the ones just
+   enforced change nothing"): after pruning with criteria cs1, pruning with criteria cs0
+   that every structure passing cs1 also passes changes nothing - any criteria lists, any
+   forest.  For the built-in parameters "no stricter" is min_delta d0 <= d1 and
+   min_npix n0/m0 <= n1/m1 (same user criteria), and the statement is also made for the
+   whole prune() call with its inherit-on-zero bookkeeping: what counts is the EFFECTIVE
+   parameters (a 0 argument inherits the recorded value, which may be stricter than the one
+   the previous call used without recording it). *)
+From Dendro Require Import PruneMono.
+
+Theorem C07_laxer_prune_after_stricter_changes_nothing :
+  forall cs0 cs1 f, weaker cs0 cs1 -> prune_struct cs0 (prune_struct cs1 f) = prune_struct cs1 f.
+Proof. exact prune_absorbs. Qed.
+Print Assumptions C07_laxer_prune_after_stricter_changes_nothing.
+
+Theorem C07_builtin_parameters_order :
+  forall d0 n0 m0 d1 n1 m1 user,
+    d0 <= d1 -> 0 < m0 -> 0 < m1 -> n0 * m1 <= n1 * m0 ->
+    weaker (MinDelta d0 :: MinNpix n0 m0 :: user) (MinDelta d1 :: MinNpix n1 m1 :: user).
+Proof. exact weaker_builtin. Qed.
+Print Assumptions C07_builtin_parameters_order.
+
+Theorem C07_laxer_call_after_stricter_call :
+  forall params a1d a1n a2d a2n user f,
+    let d1 := eff_delta (fst params) a1d in
+    let n1 := eff_npix (snd params) a1n in
+    let r1 := prune params a1d a1n user f in
+    let d2 := eff_delta (fst (fst r1)) a2d in
+    let n2 := eff_npix (snd (fst r1)) a2n in
+    d2 <= d1 -> 0 < snd n1 -> 0 < snd n2 -> fst n2 * snd n1 <= fst n1 * snd n2 ->
+    snd (prune (fst r1) a2d a2n user (snd r1)) = snd r1 /\
+    fst (fst (prune (fst r1) a2d a2n user (snd r1))) = fst (fst r1).
+Proof. exact prune_call_absorbs. Qed.
+Print Assumptions C07_laxer_call_after_stricter_call.
+
+(* non-vacuity: a forest on which the stricter call removes a leaf (3 structures -> 1) and
+   the hypotheses of the call theorem hold for a following laxer call; and the hypothesis on
+   EFFECTIVE parameters is needed: a 0 argument after an unrecorded laxer call inherits the
+   stricter recorded value and does prune *)
+Example C07_absorption_premises_hold :
+  let f := [Node 0 [(1, 1)] [Node 1 [(0, 3)] []; Node 2 [(2, 4); (3, 2)] []]] in
+  let r1 := prune (0, (0, 1)) 2 (0, 1) [] f in
+  length (fnodes f) = 3%nat /\ length (fnodes (snd r1)) = 1%nat /\
+  eff_delta (fst (fst r1)) 1 <= eff_delta 0 2 /\
+  snd (prune (fst r1) 1 (0, 1) [] (snd r1)) = snd r1.
+Proof. vm_compute. repeat split; congruence. Qed.
+
+Example C07_zero_argument_may_be_stricter :
+  let f := [Node 0 [(1, 1)] [Node 1 [(0, 3)] []; Node 2 [(2, 4); (3, 2)] []]] in
+  let r1 := prune (2, (0, 1)) 1 (0, 1) [] f in      (* recorded 2, call uses 1: nothing removed *)
+  length (fnodes (snd r1)) = 3%nat /\
+  length (fnodes (snd (prune (fst r1) 0 (0, 1) [] (snd r1)))) = 1%nat.   (* 0 inherits 2: prunes *)
+Proof. vm_compute. split; reflexivity. Qed.
